@@ -322,7 +322,12 @@ class _RetryState:
         )
         sleep_s = strategy(ctx)
 
-        if not math.isfinite(sleep_s):
+        try:
+            finite = math.isfinite(sleep_s)
+        except OverflowError:
+            # An int too large for a float is still a finite delay; it is capped below.
+            finite = True
+        if not finite:
             sleep_s = 0.0
 
         sleep_s = max(0.0, sleep_s)
